@@ -245,8 +245,26 @@ func (x *Exec) mapParts(st *State, m Val) (d, v string, vs string, vt types.Type
 	return app("select", dom.T, m.T), app("select", val.T, m.T), vs, vt
 }
 
+// nilMapFacts: a nil map has no entries.
+func (x *Exec) nilMapFacts(st *State, m Val, d, v, vs string, key string) {
+	if m.T == "0" {
+		return
+	}
+	f := []string{}
+	if key != "" {
+		f = append(f, not(app("select", d, key)))
+	}
+	if vs == "Int" {
+		f = append(f, app("=", app("msum", d, v), "0"))
+	}
+	if len(f) > 0 {
+		st.assume(implies(app("=", m.T, "0"), and(f...)))
+	}
+}
+
 func (x *Exec) mapRead(st *State, m Val, k string) (Val, string) {
 	d, v, vs, vt := x.mapParts(st, m)
+	x.nilMapFacts(st, m, d, v, vs, k)
 	present := app("select", d, k)
 	r := Val{T: app("ite", present, app("select", v, k), x.w.zero(vs)), S: vs, G: vt}
 	raw := Val{T: app("select", v, k), S: vs, G: vt}
